@@ -8,6 +8,8 @@ from mc.engine import hbfs
 from mc.engine.report import Violation
 from mc.engine.seams import Canon
 
+import numpy as np
+
 import ECAgent.Core as Core
 
 
@@ -33,7 +35,8 @@ META = {
                             'per execution, library classes reset to pristine',
                  'ops': 'add_class_component(cls, X|Y) incl. duplicates, remove_class_component(cls, X|Y) incl. absent, '
                         'cls.tag = 0|3, defining a new subclass of Agent / A / Environment mid-history',
-                 'per-state probes': 'len/contains/getitem/get_class_component(strict)/has_class_component/tag on every '
+                 'per-state probes': 'explicit tags also as numpy integer scalars; '
+                                     'len/contains/getitem/get_class_component(strict)/has_class_component/tag on every '
                                      'class; instance without tag, with tag 7 and with tag 0; instance-level '
                                      'add_component X on a fresh instance'},
     'bounds': {'quick': 'full alphabet depth 4; classes A, A1, B with type X only: fixpoint', 'thorough': 'full alphabet depth 5; same fixpoint leg'},
@@ -89,6 +92,10 @@ class Harness:
             n = 'N_' + parent
             if n in w.cls:
                 ops += [['attach', n, 'X'], ['tag', n, 3]]
+                if n + '#2' not in w.cls:
+                    ops.append(['subclass', parent])       # a class factory called twice: same qualified name
+                else:
+                    ops += [['attach', n + '#2', 'X'], ['detach', n + '#2', 'X']]
             else:
                 ops.append(['subclass', parent])
         return ops
@@ -98,7 +105,10 @@ class Harness:
         if kind == 'subclass':
             # a class defined later starts with an empty store and the default tag NONE, whatever its parent holds
             name = 'N_' + c
-            w.cls[name] = type(w.cls[c])(name, (w.cls[c],), {})
+            real_name = name
+            if name in w.cls:
+                name = name + '#2'          # second live class with the very same __name__ / __qualname__ / module
+            w.cls[name] = type(w.cls[c])(real_name, (w.cls[c],), {'__module__': __name__})
             w.ref[name] = {'comps': [], 'tag': 0}
             for T in ('X', 'Y'):
                 w.comp[(name, T)] = TYPES[T](w.cls[name], w.model)
@@ -183,10 +193,10 @@ class Harness:
             if len(inst.components) != 0:
                 raise Violation(f'{what}: a new instance starts with class components', observed=len(inst))
             if not is_env:
-                for t in (7, 0):
+                for t in (7, 0, np.int64(7), np.uint8(0), np.int32(5)):
                     i2 = cls('j', w.model, tag=t)
                     if i2.tag != t:
-                        raise Violation(f'{what}: explicit tag {t} lost', expected=t, observed=i2.tag)
+                        raise Violation(f'{what}: explicit tag {t!r} lost', expected=int(t), observed=i2.tag)
                 i3 = cls('k', w.model, t)
                 if i3.tag != t:
                     raise Violation(f'{what}: positional tag {t} lost', expected=t, observed=i3.tag)
@@ -211,7 +221,7 @@ class Harness:
         # generic canon over the per-class stores: it tracks which classes hold the very same store object and
         # whether a store IS one of the library's module-level containers (a shared store looks identical to two
         # separate ones until the next attach)
-        return self.cn([(c, w.cls[c]._components, w.cls[c]._tag, w.cls[c]._id) for c in w.cls])
+        return self.cn([(c, w.cls[c].components, w.cls[c].tag, w.cls[c].id) for c in w.cls])
 
     def refstate(self, w):
         return tuple((c, tuple(w.ref[c]['comps']), w.ref[c]['tag']) for c in w.cls)
